@@ -40,6 +40,28 @@ def proj_file(f):
     return {"comments": proj_comments(f.comments), "comps": [proj_comp(c) for c in f.components]}
 
 
+def poison(f):
+    """The caller owns what a call returned: after its content has been recorded, the returned object is EDITED IN PLACE (tags
+    added and changed, comments changed, blobs replaced) and dropped.  Nothing a later call returns may show these edits - if it
+    does, the library handed out an object it still uses (a cached or class-level dict, a memoised result)."""
+    try:
+        for c in f.components:
+            d = c.description
+            for t in list(d):
+                d[t] = b"\xEE" + bytes(d[t])
+            d[0xEE] = b"poisoned"
+            d[0xC5] = b"\x00"
+            d[0xC2] = b"\x00"
+            c.blob = b"\xEE" * (len(c.blob) or 1)
+            c.encrypt_by_session_key = not c.encrypt_by_session_key
+        f.comments["Poisoned"] = "yes"
+        for k in list(f.comments):
+            f.comments[k] = "poisoned " + str(f.comments[k])
+        f.components.append(mk_comp({0xEE: b"poisoned"}, b"\xEE"))
+    except Exception:                                     # noqa: BLE001 -- immutable containers etc.: nothing to poison
+        pass
+
+
 def exc_info(e):
     return {"cls": type(e).__name__, "mro": [k.__name__ for k in type(e).__mro__], "msg": str(e)[:200]}
 
@@ -289,6 +311,7 @@ def rec_read(rec, text, key, check, disk, scratch, auth=None, **extra):
         g = read_text(text, keyform(rec, key), check, disk, scratch, rec.tid)
         pj = proj_file(g)
         ev["comps"], ev["comments"] = pj["comps"], pj["comments"]
+        poison(g)
     except BaseException as e:                                  # noqa: BLE001 -- the class is part of the record
         if isinstance(e, (KeyboardInterrupt, SystemExit)):
             raise
